@@ -25,9 +25,10 @@ HVEC = "heapless::vec::Vec"
 
 def accumulator_templates(F):
     """Houdini candidates for every crate struct that holds one heapless::Vec and some u16 fields (the row /
-    block accumulators of the batching pipeline), generated from the field types only - no names:
-    for ordered pairs (a, b) of u16 fields: b >= a and len == b - a + 1; for two disjoint pairs:
-    len == (b - a + 1) * (d - c + 1); each unguarded and guarded by every bool field (both polarities)."""
+    block accumulators of the batching pipeline), generated from the field types only - no names, no
+    declaration order: for every ordered pair (a, b) of u16 fields: b >= a and len == b - a + 1; for two
+    disjoint pairs: len == (b - a + 1) * (d - c + 1); each unguarded and guarded by every bool field (both
+    polarities)."""
     import itertools
     out = {}
     for a in F.adts.values():
@@ -51,6 +52,7 @@ def accumulator_templates(F):
                 if isinstance(bv, BoolV):
                     guards += [bv.p, ONE - bv.p]
             cands = []
+            # every ordered pair of u16 fields as (start, end)
             pairs = [(x, y) for x in u16s for y in u16s if x != y]
             for g in guards:
                 for (x, y) in pairs:
@@ -58,9 +60,10 @@ def accumulator_templates(F):
                     cands.append((g, py - px))
                     cands.append((g, ln - (py - px + 1)))
                     cands.append((g, (py - px + 1) - ln))
-                for (x, y) in pairs:
-                    for (u, v) in pairs:
-                        if len({x, y, u, v}) < 4 or (x, y) > (u, v):
+                for i in range(len(pairs)):
+                    for j in range(i + 1, len(pairs)):
+                        (x, y), (u, v) = pairs[i], pairs[j]
+                        if len({x, y, u, v}) < 4:
                             continue
                         area = (fields[y].poly() - fields[x].poly() + 1) * (fields[v].poly() - fields[u].poly() + 1)
                         cands.append((g, ln - area))
@@ -70,7 +73,7 @@ def accumulator_templates(F):
     return out
 
 
-def run_draw(R, F, rec, q, m, assume=None, args=None, no_merge=False):
+def run_draw(R, F, rec, q, m, assume=None, args=None, no_merge=False, struct_inv=False):
     ex = R.executor(F)
     ex.abstract_defs = {abstract_wc(F)["id"]}
     ex.no_merge = no_merge
@@ -78,7 +81,8 @@ def run_draw(R, F, rec, q, m, assume=None, args=None, no_merge=False):
     # template invariants P_win: an accumulator that only ever holds sanitised coordinates stays
     # inside the logical bounds (Houdini over loops, transferred through merges)
     ex.templates = [lambda v, g=g: g.lw - 1 - v, lambda v, g=g: g.lh - 1 - v]
-    if os.environ.get("AIM_STRUCT_TEMPLATES") == "1":
+    if struct_inv or os.environ.get("AIM_STRUCT_TEMPLATES") == "1":
+        # relational Houdini candidates for the row / block accumulators of the batching pipeline
         ex.struct_templates = accumulator_templates(F)
     res = R.run_entry(ex, rec, init_mem=C.display_init_mem(ex, F, rec, q, m), assume=g.i_init() + (assume or []), args=args)
     return ex, g, res
